@@ -4,26 +4,27 @@ import (
 	"fmt"
 
 	"github.com/ajitpratap0/GoSQLX/pkg/gosqlx"
+	"github.com/ajitpratap0/GoSQLX/pkg/sql/security"
 )
 
 func main() {
 	for _, s := range []string{
-		"MERGE INTO t1 a USING t2 b ON a.id = b.id WHEN MATCHED THEN UPDATE SET x = lower(b.y) WHEN NOT MATCHED THEN INSERT (id) VALUES (b.id)",
-		"MERGE INTO t1 USING (SELECT c FROM t3) s ON t1.c = s.c WHEN MATCHED THEN DELETE",
-		"CREATE VIEW v AS SELECT a, upper(b) FROM t WHERE c > 1",
-		"CREATE TABLE t (a INT CHECK (a > abs(b)), b INT REFERENCES o (id))",
-		"CREATE INDEX ix ON t (a) WHERE b > 0",
-		"DROP TABLE t1, s.t2",
-		"TRUNCATE TABLE t1",
-		"INSERT INTO t1 (a) SELECT b FROM t2",
-		"UPDATE t1 SET a = (SELECT max(b) FROM t2) WHERE c IN (SELECT d FROM t3)",
-		"DELETE FROM t1 WHERE EXISTS (SELECT 1 FROM t2 WHERE t2.a = t1.a)",
+		"SELECT a FROM t WHERE 1 = 1",
+		"MERGE INTO t USING s ON 1 = 1 WHEN MATCHED THEN DELETE",
+		"MERGE INTO t USING s ON t.a = s.a WHEN MATCHED AND 'a' = 'a' THEN DELETE",
+		"MERGE INTO t USING s ON t.a = s.a WHEN MATCHED THEN UPDATE SET x = SLEEP(5)",
+		"MERGE INTO t USING (SELECT a FROM u WHERE 1 = 1) s ON t.a = s.a WHEN MATCHED THEN DELETE",
+		"CREATE VIEW v AS SELECT a FROM t WHERE 1 = 1",
+		"CREATE MATERIALIZED VIEW v AS SELECT a FROM t WHERE 1 = 1",
+		"CREATE INDEX ix ON t (a) WHERE 1 = 1",
+		"CREATE TABLE t (a INT CHECK (1 = 1))",
 	} {
 		t, err := gosqlx.Parse(s)
 		if err != nil {
 			fmt.Println("ERR", s)
 			continue
 		}
-		fmt.Printf("%s\n   tables=%v columns=%v functions=%v\n", s, gosqlx.ExtractTables(t), gosqlx.ExtractColumns(t), gosqlx.ExtractFunctions(t))
+		r := security.NewScanner().Scan(t)
+		fmt.Printf("%-95s findings=%d\n", s, len(r.Findings))
 	}
 }
